@@ -71,6 +71,9 @@ func (f Float64) ToString() String {
 }
 
 func (f Float64) Hash() UInt64 {
+	if f == 0 {
+		f = 0 // 0.0 == -0.0: both zeros must hash alike
+	}
 	d := xxhash.New()
 	b := make([]byte, 8)
 	binary.LittleEndian.PutUint64(b, math.Float64bits(float64(f)))
